@@ -8,6 +8,7 @@ RESTATE = "seq"    # worker adds a signature restating the one in force to every
 CANONICAL_ABS = True   # cut-off pairs notes over the canonically sorted list (oracle.abs_order)
 SPLIT_WAITS = "seq"   # worker: every fifth case is built from relative messages with rests split into adjacent waits
 DEGEN = "seq"    # worker: every 37th case becomes a degenerate shape (gen.degenerate)
+REJECTED_EVERY = 7
 REJECTED = "prefix"    # worker: every thirteenth case starts with a call the library rejects (common.apply_prefix "rejected")
 SCALE = True   # worker: every fortieth case is blown up by scale_case below
 PROP = "C18"
@@ -89,6 +90,16 @@ def make_case(rng, i, tier):
             # the same assignment twice with appended material in between
             case["prefix"] = [{"op": "set_channel", "c": case["ch"]},
                               {"op": "concat_copy", "notes": [[rng.choice([0, 1]), 70 + j, 6 * j, 12, 30 + j] for j in range(rng.randint(1, 3))]}]
+    if op == "chan" and (i // 5) % 3 == 1 and notes:
+        # the target is a channel the sequence already uses: for some of its events the assignment is a no-op (the channel of the
+        # last event, of the first event, or of the lowest channel)
+        last = max(notes, key=lambda n: (n[2] + n[3], n[0]))
+        first = min(notes, key=lambda n: (n[2], n[0]))
+        tgt = [last[0], first[0], min(n[0] for n in notes)][(i // 15) % 3]
+        for o_ in case["prefix"]:
+            if o_.get("op") == "set_channel" and o_.get("c") == case["ch"]:
+                o_["c"] = tgt
+        case["ch"] = tgt
     if op == "pad" and case["prefix"] and rng.random() < 0.4:
         case["prefix"] = [{"op": "pad", "n": case["n"]}, {"op": "concat_copy", "notes": [[0, 71, 0, 12, 33]]}]
     if op == "scale" and case["prefix"] and rng.random() < 0.4:
